@@ -42,7 +42,7 @@ ZIP_WHITELIST = {
 
 def run(ctx) -> None:
     ctx.rule("a.dispatch", "every arithmetic dunder forwards to the kernel with the operator (or _reverse_ helper) of its own "
-                           "name; _reverse_X(y, x) returns x X y; a reflected form may call the forward form only for *", 30)
+                           "name; _reverse_X(y, x) returns x X y; a reflected form may call the forward form only for *", 25)
     ctx.rule("b.no-truncation", "every zip() over operands in the operator / comparison / concatenation / mask code is strict=True "
                                 "or dominated by a raising length comparison of the same operands (others: explicit table with reason)", 10)
     ctx.rule("b.length-before-result", "in _elementwise_operation / __radd__ nothing is returned for a vector/sequence operand "
@@ -93,7 +93,9 @@ def _apply_op(prog, it, home: FuncInfo, op, args):
         if op[1] == "abs" and len(args) == 1:
             return ("call", ("name", "abs"), (args[0],), ())
         tgt = prog.functions.get(f"{home.module}.{op[1]}")
-        if tgt is None or len(tgt.params) != len(args) or isinstance(tgt.node, ast.Lambda):
+        if tgt is None:
+            return _apply_made_function(prog, home, op[1], args)
+        if len(tgt.params) != len(args) or isinstance(tgt.node, ast.Lambda):
             return None
         sub = Interp(prog, tgt, args=dict(zip(tgt.params, args)))
         rets = sub.returns
@@ -101,8 +103,45 @@ def _apply_op(prog, it, home: FuncInfo, op, args):
             return rets[0][1]
         return None
     if op[0] == "lam":
-        return it.call_value(op, tuple(args))
+        r = it.call_value(op, tuple(args))
+        return _norm_ops(r) if r is not None else None
     return None
+
+
+def _norm_ops(t):
+    """operator.X(a, b) written as a call is the operation term"""
+    if not isinstance(t, tuple) or not t or t[0] == "const":
+        return t
+    t = tuple(_norm_ops(x) for x in t)
+    if t[0] == "call" and t[1][0] == "attr" and t[1][1] == ("name", "operator") and not t[3]:
+        if len(t[2]) == 2 and t[1][2] in _BIN:
+            return ("bin", _BIN[t[1][2]], t[2][0], t[2][1])
+        if len(t[2]) == 2 and t[1][2] in _CMP:
+            return ("cmp", _CMP[t[1][2]], t[2][0], t[2][1])
+        if len(t[2]) == 1 and t[1][2] in _UN:
+            return ("un", _UN[t[1][2]], t[2][0])
+    return t
+
+
+def _apply_made_function(prog, home: FuncInfo, name: str, args):
+    """`name = factory(<constants>)` at module level, where factory is a package function that returns a closure: the closure,
+    made abstractly, applied to the argument terms."""
+    from ..core import module_binding
+    from ..symx import Interp, _table_term
+    b = module_binding(prog, home.module, name)
+    if b is None or not isinstance(b[1], ast.Call) or not isinstance(b[1].func, ast.Name) or b[1].keywords:
+        return None
+    fac = prog.functions.get(f"{home.module}.{b[1].func.id}")
+    if fac is None or len(fac.params) != len(b[1].args):
+        return None
+    given = [_table_term(a) for a in b[1].args]
+    if any(g is None for g in given):
+        return None
+    sub = Interp(prog, fac, args=dict(zip(fac.params, given)))
+    if len(sub.returns) != 1 or sub.returns[0][0] or sub.falls_through or sub.returns[0][1][0] != "lam":
+        return None
+    r = sub.call_value(sub.returns[0][1], tuple(args))
+    return _norm_ops(r) if r is not None else None
 
 
 def _returns_of(prog, f: FuncInfo):
@@ -574,14 +613,18 @@ def _table(ctx) -> None:
 
 
 # ---------------------------------------------------------------------------------------------
-def _none_kept(v, xs):
-    """payload term if `v` is None exactly when one of the element terms xs is None (any spelling of the test), else None."""
+def _none_kept(v, xs, conds=()):
+    """payload term if `v` is None exactly when one of the element terms xs is None (any spelling of the test), else None.
+    `conds`: the path condition of the site - an operand it has typed (isinstance(other, int)) is not None."""
     import itertools
     from ..symx import NONE as SNONE
-    from ..symx import reduce_ifexp, simplify
+    from ..symx import flatten_conds, reduce_ifexp, simplify
+    typed = {("cmp", "Is", t[2][0], SNONE): False for t, pol in flatten_conds(conds)
+             if pol and t[0] == "call" and t[1] == ("name", "isinstance") and len(t[2]) == 2}
     payload = None
     for vals in itertools.product((False, True), repeat=len(xs)):
-        atoms = {("cmp", "Is", x, SNONE): b for x, b in zip(xs, vals)}
+        atoms = dict(typed)
+        atoms.update({("cmp", "Is", x, SNONE): b for x, b in zip(xs, vals)})
         r = reduce_ifexp(simplify(v, atoms), atoms)
         if any(vals):
             if r != SNONE:
@@ -755,7 +798,7 @@ def _wrappers(ctx) -> None:
             problems.append(f"iterates `{show(lp.iter, s_.it)[:40]}`, not self")
             continue
         day = ("call", ("attr", ("name", "date"), "fromordinal"), (("bin", "Add", ("call", ("attr", x, "toordinal"), (), ()), y),), ())
-        if _none_kept(v, xs) != day:
+        if _none_kept(v, xs, s_.ev.conds) != day:
             problems.append(f"day arithmetic `{show(v, s_.it)[:80]}` is not date.fromordinal(s.toordinal() + n) with None kept")
     ctx.ob("e.wrappers", f, "date-add", not problems, "dates + int adds days; anything else uses the generic kernel", f.node,
            message="_Date.__add__: " + "; ".join(problems[:2]))
